@@ -485,6 +485,31 @@ class Desugar(ast.NodeTransformer):
                         out.append(nb)
                 i += 1
                 continue
+            # D3e: for a, b in TABLE: if TEST: BODY; break  [else: ELSE]   ->   if TEST(row1): BODY(row1) elif TEST(row2): ... else: ELSE
+            if isinstance(st, ast.For) and isinstance(st.target, (ast.Tuple, ast.Name)) and len(st.body) == 1 and isinstance(st.body[0], ast.If) \
+                    and not st.body[0].orelse and st.body[0].body and isinstance(st.body[0].body[-1], ast.Break) \
+                    and not any(isinstance(x, (ast.Break, ast.Continue)) for b in st.body[0].body[:-1] for x in ast.walk(b)) \
+                    and not any(isinstance(x, (ast.Break, ast.Continue)) for b in st.orelse for x in ast.walk(b)):
+                names = [t.id for t in st.target.elts] if isinstance(st.target, ast.Tuple) and all(isinstance(t, ast.Name) for t in st.target.elts) else None
+                rows = self._rows(st.iter, local_tables) if names else None
+                if names is None and isinstance(st.target, ast.Name) and self._cells(st.iter) is not None:
+                    names, rows = [st.target.id], [[c] for c in self._cells(st.iter)]
+                stored_in_body = {x.id for b in st.body for x in ast.walk(b) if isinstance(x, ast.Name) and isinstance(x.ctx, ast.Store)}
+                if rows and names and len(names) == len(rows[0]) and not (set(names) & stored_in_body):
+                    chain: List[ast.stmt] = list(st.orelse)
+                    for row in reversed(rows):
+                        m = dict(zip(names, row))
+                        inner = st.body[0]
+                        node_ = ast.If(test=_Subst(m).visit(copy.deepcopy(inner.test)),
+                                       body=[_Subst(m).visit(copy.deepcopy(b)) for b in inner.body[:-1]] or [ast.Pass()], orelse=chain)
+                        for x in ast.walk(node_):
+                            if not hasattr(x, 'lineno'):
+                                ast.copy_location(x, st)
+                        ast.copy_location(node_, st)
+                        chain = [node_]
+                    out.extend(chain)
+                    i += 1
+                    continue
             # D3: for a, b in TABLE: body   ->  unrolled copies
             if isinstance(st, ast.For) and not st.orelse and isinstance(st.iter, (ast.Name, ast.Tuple, ast.List, ast.Attribute)) and isinstance(st.target, (ast.Tuple, ast.Name)):
                 rows = self._rows(st.iter, local_tables)
